@@ -75,16 +75,33 @@ class Action:
 
         old_to_new_parameter_names: the mapping between the old and new parameter names.
         """
-        ordered_old_signature = list(self.signature.keys())
-        for old_param_name in ordered_old_signature:
-            new_param_name = old_to_new_parameter_names[old_param_name]
-            self.signature[new_param_name] = self.signature.pop(old_param_name)
+        renamed_signature = {
+            old_to_new_parameter_names[old_param_name]: param_type
+            for old_param_name, param_type in self.signature.items()
+        }
+        self.signature.clear()
+        self.signature.update(renamed_signature)
 
         self.preconditions.change_signature(old_to_new_parameter_names)
-        for effect in self.discrete_effects:
-            effect.change_signature(old_to_new_parameter_names)
+        effect_groups = [self, *self.conditional_effects]
+        for universal_effect in self.universal_effects:
+            effect_groups.extend(universal_effect.conditional_effects)
 
-        for effect in self.numeric_effects:
-            effect.change_signature(old_to_new_parameter_names)
+        for effect_group in effect_groups:
+            if effect_group is not self:
+                effect_group.antecedents.change_signature(old_to_new_parameter_names)
 
-        # TODO: change the signature of the conditional and universal effects.
+            for effect in effect_group.discrete_effects:
+                effect.change_signature(old_to_new_parameter_names)
+
+            for effect in effect_group.numeric_effects:
+                effect.change_signature(old_to_new_parameter_names)
+
+            # the literals are hashed by their text, which has just changed.
+            effect_group.discrete_effects = set(effect_group.discrete_effects)
+
+        self.conditional_effects = set(self.conditional_effects)
+        for universal_effect in self.universal_effects:
+            universal_effect.conditional_effects = set(
+                universal_effect.conditional_effects
+            )
